@@ -1,10 +1,118 @@
 import Poly.Proofs.Schema
 import Poly.Model.SchemaRecords
-/-! # C04 — placeholder, theorems follow -/
+import Poly.Generated.CodecInventory
+/-!
+# C04 — Contract parameters and stored records round-trip canonically
+
+Generic theorems over the schema DSL `Ty` (`Poly.Model.Schema`), proved once by induction on the schema, and their
+instances for the 50 record schemas of `Poly.Model.SchemaRecords.table` (one per Go type with a codec pair in the thirteen
+anchored files — the list of those types is regenerated from the Go source, `Poly.Generated.CodecInventory.c04`).
+`K` (public-key library) is a parameter; none of the record schemas uses it.
+-/
 namespace Poly.Props.C04
 open Poly.Model.Codec Poly.Model.Schema Poly.Model.SchemaRecords
 
+/-! ## Generic theorems (every schema, every value, every suffix) -/
+
+/-- Round trip with exact consumption. -/
 theorem dec_enc (K : Bytes → Option Bytes) (t : Ty) (v : t.Val) (r : Bytes) (h : t.WF K v) :
     t.dec K (t.enc v ++ r) = .ok (v, r) := Ty.dec_enc K t v r h
+
+/-- Encodings determine the value. -/
+theorem enc_injective (K : Bytes → Option Bytes) (t : Ty) (v w : t.Val) (hv : t.WF K v) (hw : t.WF K w)
+    (h : t.enc v = t.enc w) : v = w := Ty.enc_injective K t v w hv hw h
+
+/-- Encodings are prefix-free: in a concatenation the split point and the value are determined. -/
+theorem enc_prefix_free (K : Bytes → Option Bytes) (t : Ty) (v w : t.Val) (r r' : Bytes) (hv : t.WF K v) (hw : t.WF K w)
+    (h : t.enc v ++ r = t.enc w ++ r') : v = w ∧ r = r' := Ty.enc_prefix_free K t v w r r' hv hw h
+
+/-- For schemas without eof-ignoring tails, every proper prefix of an encoding is rejected. -/
+theorem dec_trunc (K : Bytes → Option Bytes) (t : Ty) (hs : t.strict = true) (v : t.Val) (h : t.WF K v) (k : Nat)
+    (hk : k < (t.enc v).length) : IsErr (t.dec K ((t.enc v).take k)) := Ty.dec_trunc K t hs v h k hk
+
+/-- Schemas that never preallocate from an unbounded wire count never reach the panic outcome, on any input. -/
+theorem dec_total_no_panic (K : Bytes → Option Bytes) (t : Ty) (h : t.noUnboundedPrealloc = true) (bs : Bytes) :
+    t.dec K bs ≠ .error .panic := Ty.dec_no_panic K t h bs
+
+/-- A Go map is written in an order that depends only on its set of entries: any two enumerations of the same entries with
+pairwise distinct keys have the same canonical entry list, hence the same bytes; that list is strictly descending by key
+(so it is a well-formed map value and decodes back to itself). -/
+theorem enc_map_perm (c : Cnt) (k : Leaf) (kg : Guard) (v : Ty) (ord : KeyOrd) (es₁ es₂ : List (k.Val × v.Val))
+    (hp : es₁.Perm es₂) (hnd : nodupKeys (k.sortKey ord) es₁) :
+    (Ty.map c k kg v ord).enc (canonMap (k.sortKey ord) es₁) = (Ty.map c k kg v ord).enc (canonMap (k.sortKey ord) es₂) ∧
+    strictDesc (k.sortKey ord) (canonMap (k.sortKey ord) es₁) := by
+  rw [canonMap_perm (k.sortKey ord) es₁ es₂ hp hnd]
+  exact ⟨rfl, canonMap_strictDesc _ _⟩
+
+/-- A map value that is already canonical is what decoding produces from its own encoding (no reordering, no loss). -/
+theorem canonical_map_is_fixed (κ ν : Type) (key : κ → Bytes) (es : List (κ × ν)) (h : strictDesc key es) :
+    canonMap key es = es := canonMap_of_strictDesc key es h
+
+/-- The executable well-formedness test decides a sufficient condition for `WF`. -/
+theorem wfb_sound (K : Bytes → Option Bytes) (t : Ty) (v : t.Val) (h : t.wfb K v = true) : t.WF K v := Ty.wfb_sound K t v h
+
+/-! ## The record table -/
+
+/-- (T) every type with a codec pair in the anchored Go files has a schema, and every schema names such a type. -/
+theorem inventory_covered :
+    (∀ e ∈ Poly.Generated.CodecInventory.c04, (find e.1).isSome = true) ∧
+    (∀ rc ∈ table, (Poly.Generated.CodecInventory.c04.map (·.1)).contains rc.name = true) ∧
+    table.length = 50 := by decide
+
+/-- No record decoder preallocates from an unbounded wire count (after the fixes to `BtcTxParam`, `RippleExtraInfo`,
+`StateValidatorListParam`). -/
+theorem records_no_unbounded_prealloc : ∀ rc ∈ table, rc.ty.noUnboundedPrealloc = true := by decide
+
+/-- All record schemas are strict except the two side-chain records with the eof-ignoring trailing `ExtraInfo`. -/
+theorem records_strict :
+    ∀ rc ∈ table, rc.ty.strict = true ∨ rc.name = "SideChain" ∨ rc.name = "RegisterSideChainParam" := by decide
+
+/-- Round trip for every record type of the table. -/
+theorem records_roundtrip (K : Bytes → Option Bytes) (rc : Rec) (_hrc : rc ∈ table) (v : rc.ty.Val) (r : Bytes)
+    (h : rc.ty.WF K v) : rc.ty.dec K (rc.ty.enc v ++ r) = .ok (v, r) := Ty.dec_enc K rc.ty v r h
+
+/-- Malformed input never makes a record decoder panic. -/
+theorem records_no_panic (K : Bytes → Option Bytes) (rc : Rec) (hrc : rc ∈ table) (bs : Bytes) :
+    rc.ty.dec K bs ≠ .error .panic := Ty.dec_no_panic K rc.ty (records_no_unbounded_prealloc rc hrc) bs
+
+/-- Truncated encodings are rejected for every record type except the two side-chain records. -/
+theorem records_truncation_rejected (K : Bytes → Option Bytes) (rc : Rec) (hrc : rc ∈ table)
+    (hn : rc.name ≠ "SideChain" ∧ rc.name ≠ "RegisterSideChainParam") (v : rc.ty.Val) (h : rc.ty.WF K v) (k : Nat)
+    (hk : k < (rc.ty.enc v).length) : IsErr (rc.ty.dec K ((rc.ty.enc v).take k)) := by
+  rcases records_strict rc hrc with hs | hs | hs
+  · exact Ty.dec_trunc K rc.ty hs v h k hk
+  · exact absurd hs hn.1
+  · exact absurd hs hn.2
+
+private theorem canon_by_field_perm {α : Type} (key : α → Bytes) (l₁ l₂ : List α) (hp : l₁.Perm l₂)
+    (hnd : (l₁.map key).Nodup) :
+    (canonMap (ν := Unit) key (l₁.map fun a => (a, ()))).map (·.1) = (canonMap (ν := Unit) key (l₂.map fun a => (a, ()))).map (·.1) := by
+  have hp' : List.Perm (l₁.map fun a => (a, ())) (l₂.map fun a => (a, ())) := hp.map _
+  have hnd' : nodupKeys (ν := Unit) key (l₁.map fun a => (a, ())) := by
+    unfold nodupKeys
+    rw [List.pairwise_map]
+    exact (List.pairwise_map.mp hnd).imp (fun h => h)
+  rw [canonMap_perm _ _ _ hp' hnd']
+
+/-- `PeerPoolMap` (map keyed by a field of its items): the canonical item list does not depend on the enumeration order. -/
+theorem peerPoolMap_order_independent (is₁ is₂ : peerPoolMap.Val) (hp : List.Perm (α := peerPoolItem.Val) is₁ is₂)
+    (hnd : (List.map (α := peerPoolItem.Val) (fun it => it.2.1) is₁).Nodup) : peerPoolPost is₁ = peerPoolPost is₂ :=
+  canon_by_field_perm (α := peerPoolItem.Val) (fun it => it.2.1) is₁ is₂ hp hnd
+
+/-! ## Non-vacuity: well-formed values of records with lists, maps and big integers -/
+
+def exFeeInfo : feeInfo.Val :=
+  ((7 : UInt32), [((List.replicate 19 0 ++ [2] : Bytes), (300 : Nat)), ((List.replicate 19 0 ++ [1] : Bytes), (0 : Nat))])
+
+example : feeInfo.WF (fun _ => none) exFeeInfo := Ty.wfb_sound _ feeInfo exFeeInfo (by decide)
+
+def exSigInfo : sigInfo.Val := (true, [(([0x62] : Bytes), ([1, 2] : Bytes)), (([0x61, 0x61] : Bytes), ([] : Bytes)), (([0x61] : Bytes), ([3] : Bytes))])
+
+example : sigInfo.WF (fun _ => none) exSigInfo := Ty.wfb_sound _ sigInfo exSigInfo (by decide)
+
+def exBtcTxParam : btcTxParam.Val :=
+  (([1, 2] : Bytes), (5 : UInt64), ([[9], []] : List Bytes), ((1 : UInt64), (2 : UInt64), (3 : UInt64)))
+
+example : btcTxParam.WF (fun _ => none) exBtcTxParam := Ty.wfb_sound _ btcTxParam exBtcTxParam (by decide)
 
 end Poly.Props.C04
